@@ -642,7 +642,7 @@ class PGFile:
             if (
                 isinstance(symbol, Terminal)
                 and isinstance(symbol.recognizer, StringRecognizer)
-                and symbol.recognizer.value == symbol_fqn
+                and escape(symbol.recognizer.value) == symbol_fqn
             ):
                 # Inline string terminals are named by their text which is
                 # not a qualified name even if it contains a dot.
